@@ -125,8 +125,8 @@ def Cfg.covers (cfg : Cfg) : Bool :=
   LM.all.all (fun m => cfg.listOv.contains m) && DM.all.all (fun m => cfg.dictOv.contains m)
     && LM.all.all (fun m => cfg.arrOv.contains m)
 
-/-- every value that can be handed in ends up wrapped -/
-def Cfg.wrapsAll (cfg : Cfg) : Bool := cfg.makeTuple && cfg.iterUnwrapped.isEmpty
+/-- every value that can be handed in ends up wrapped, and a change that ends in an exception is notified too -/
+def Cfg.wrapsAll (cfg : Cfg) : Bool := cfg.makeTuple && cfg.iterUnwrapped.isEmpty && cfg.notifyOnError
 
 /-! ### wrapping, unwrapping, serialisation -/
 
@@ -277,6 +277,8 @@ inductive LMut where
   | reverse
   | sort (perm : List Nat)        -- outcome of a successful `sort(key=…, reverse=…)`: new position ↦ old position
   | sortFail                      -- `sort()` that raised (items that cannot be compared) and left the order as it was
+  | sortRaise (perm : List Nat)   -- `sort()` that raised AFTER it had already reordered the list (CPython leaves the list
+                                  -- partially sorted: `[1, 3, 2, None].sort()` -> `[1, 2, 3, None]` + TypeError)
   | clear
   | iadd (k : IterKind) (vs : List T)
   | imul (n : Int)
@@ -297,11 +299,19 @@ def LMut.meth : LMut → LM
   | .setitem _ _ | .setslice _ _ _ _ => .setitem
   | .delitem _ | .delslice _ _ => .delitem
   | .append _ => .append | .extend _ _ => .extend | .insert _ _ => .insert | .pop _ => .pop | .remove _ => .remove
-  | .reverse => .reverse | .sort _ | .sortFail => .sort | .clear => .clear | .iadd _ _ => .iadd | .imul _ => .imul
+  | .reverse => .reverse | .sort _ | .sortFail | .sortRaise _ => .sort | .clear => .clear | .iadd _ _ => .iadd | .imul _ => .imul
 
 def DMut.meth : DMut → DM
   | .setitem _ _ => .setitem | .delitem _ => .delitem | .update _ _ _ => .update | .setdefault _ _ => .setdefault
   | .pop _ _ => .pop | .popitem => .popitem | .clear => .clear | .ior _ _ => .ior
+
+/-- the built-in method changes the container and THEN raises (the change stays) -/
+def LMut.raises : LMut → Bool
+  | .sortRaise _ => true
+  | _ => false
+
+/-- `tracked_method`: `_changed_()` is called when the built-in method returned; when it raised, only with try/finally -/
+def notifies (cfg : Cfg) (m : LMut) : Bool := !m.raises || cfg.notifyOnError
 
 /-- the values a mutator stores into the container -/
 def LMut.args : LMut → List T
@@ -343,6 +353,7 @@ def lEffect : LMut → Items → Except Err Items
   | .reverse, xs => .ok xs.reverse
   | .sort perm, xs => .ok (perm.filterMap (fun i => xs[i]?))
   | .sortFail, _ => .error .type
+  | .sortRaise perm, xs => .ok (perm.filterMap (fun i => xs[i]?))
   | .clear, _ => .ok []
   | .iadd _ vs, xs => .ok (xs ++ vs.map li)
   | .imul n, xs => .ok (List.replicate n.toNat xs).flatten
@@ -417,19 +428,19 @@ def applyL (cfg : Cfg) (m : LMut) : T → Except (Err × Bool) (T × Bool)
   | .node .list w xs =>
       let tr := w && cfg.listOv.contains m.meth
       match lEffect (if tr then m.prep cfg else m) xs with
-      | .ok xs' => .ok (.node .list w xs', tr)
+      | .ok xs' => .ok (.node .list w xs', tr && notifies cfg m)
       | .error e => .error (e, tr && cfg.notifyOnError)
   | .node .iarr w xs =>
       let tr := w && cfg.arrOv.contains m.meth
       if tr && !m.valid .iarr then .error (.type, false) else
       match lEffect m xs with
-      | .ok xs' => .ok (.node .iarr w xs', tr)
+      | .ok xs' => .ok (.node .iarr w xs', tr && notifies cfg m)
       | .error e => .error (e, tr && cfg.notifyOnError)
   | .node .sarr w xs =>
       let tr := w && cfg.arrOv.contains m.meth
       if tr && !m.valid .sarr then .error (.type, false) else
       match lEffect m xs with
-      | .ok xs' => .ok (.node .sarr w xs', tr)
+      | .ok xs' => .ok (.node .sarr w xs', tr && notifies cfg m)
       | .error e => .error (e, tr && cfg.notifyOnError)
   | _ => .error (.type, false)
 
@@ -531,7 +542,7 @@ def notified (s : St) (n : Bool) : St := if n then attrChanged s else s
 
 def step (cfg : Cfg) (s : St) : Op → St × Option Err
   | .lmut p m => match modAt (applyL cfg m) p s.doc with
-      | .ok (d, n) => (notified { s with doc := d } n, none)
+      | .ok (d, n) => (notified { s with doc := d } n, if m.raises then some .type else none)
       | .error (e, n) => (notified s n, some e)
   | .dmut p m => match modAt (applyD cfg m) p s.doc with
       | .ok (d, n) => (notified { s with doc := d } n, none)
@@ -555,7 +566,7 @@ def run (cfg : Cfg) : List Op → St → St
 /-- the guard of the partial theorems: everything the operation stores is fully wrapped after `tracked_method`'s
     argument wrapping (always true for JSON values made of dict / list / scalars handed in directly or in a list) -/
 def Op.argsW (cfg : Cfg) : Op → Bool
-  | .lmut _ m => (m.prep cfg).args.all allW
+  | .lmut _ m => (m.prep cfg).args.all allW && notifies cfg m
   | .dmut _ m => (m.prep cfg).args.all allW
   | .assign v => allW (make cfg v)
   | _ => true
